@@ -100,6 +100,10 @@ def lean_deps(mod, seen=None):
 def lean_props(ctx, build_modeld=True):
     """build modeld + Props/<id>.lean, audit axioms and forbidden tokens. Returns True when every obligation is discharged."""
     ok = True
+    # every generated file is refreshed first: the model driver links all of them, and a table left over from another tree must never be compared
+    if 'translated_all' not in ctx.cov:
+        if translate(ctx) is None: ok = False
+        ctx.cov['translated_all'] = True
     if build_modeld:
         rc, out, dt = sh(['lake', 'build', 'modeld'], cwd=LAKE, timeout=1800)
         if rc != 0:
